@@ -222,4 +222,18 @@ def getTx (p : Pool) (h : String) : Option TxR :=
 def hasPending (p : Pool) : Bool := p.nonBatch > 0
 def isFull (p : Pool) : Bool := p.hashMap.length ≥ p.poolSize
 
+/-! ### `TxCache` (tx_cache.go): incoming transactions are gathered into sets before they reach the pool -/
+
+/-- `appendTx` / `postTxSet` over a sequence of arrivals (`none` = a nil transaction, which is dropped with an error log):
+a set is posted as soon as it holds `size` transactions; what is left when the arrivals stop is posted by the tick.
+Returns the posted sets, oldest first. -/
+def txCacheRun {α : Type} (size : Nat) (arrivals : List (Option α)) : List (List α) :=
+  let r := arrivals.foldl (fun (acc : List (List α) × List α) a =>
+    match a with
+    | none => acc
+    | some tx =>
+      let cur := acc.2 ++ [tx]
+      if cur.length ≥ size then (acc.1 ++ [cur], []) else (acc.1, cur)) ([], [])
+  if r.2.isEmpty then r.1 else r.1 ++ [r.2]
+
 end Bxh.Mempool
